@@ -13,6 +13,8 @@ ops (booleans 0/1):
   spbegin <oldOk> <newValid> <writeOk>  -> mid | ret:ErrInvalidPassWord
   spstep                                -> mid | ret:<result>
   spto p1|p4|ret                        -> at:<p1|p4> <flag> | ret:<result> <flag>
+  spto retp                             -> ret:<result> -      (run to the return; a caller that was waiting for wallet.mtx
+                                                                 runs next, so the flag at the return itself is not observed)
 a label that is not enabled in the model answers `not-enabled` (state unchanged).
 -/
 
@@ -63,6 +65,14 @@ def stepLine (d : DState) (line : String) : DState × String :=
     match bool? m with
     | some m => ({ d with s := { memPw := m } }, "ok")
     | none => (d, "bad-op")
+  | ["spto", "retp"] =>
+    match d.s.sp with
+    | none => (d, "not-enabled")
+    | some _ =>
+      let (s', r) := runTo d.v .ret 8 d.s
+      match r with
+      | some res => ({ d with s := s' }, s!"ret:{showRes res} -")
+      | none => ({ d with s := s' }, "bad-op")
   | ["spto", p] =>
     match stop? p with
     | none => (d, "bad-op")
